@@ -4,11 +4,15 @@ set -eu
 ROOT="$(cd "$(dirname "$0")" && pwd)"
 cd "$ROOT"
 export GOFLAGS=-mod=mod GOPROXY=off GOSUMDB=off GOTOOLCHAIN=local
+# the tree under test: /repo unless a seed run (seedpar.sh) points at a scratch worktree
+export VERIF_REPO="${VERIF_REPO:-/repo}"
 # go.mod: the repository's own requirements (so that no module lookup is ever needed) + the harness' extras
 python3 - "$ROOT" <<'PY'
 import re,sys
 root=sys.argv[1]
-src=open('/repo/go.mod').read()
+import os
+repo=os.environ.get('VERIF_REPO','/repo')
+src=open(repo+'/go.mod').read()
 reqs=re.findall(r'^require \((.*?)^\)', src, re.M|re.S)
 single=re.findall(r'^require ([^\s(]+ [^\s]+)', src, re.M)
 repl=re.findall(r'^replace .*$', src, re.M)
@@ -19,10 +23,10 @@ for block in reqs:
         if l and not l.startswith('//'): lines.append(l.split('//')[0].strip())
 lines+= [s.strip() for s in single]
 extra=[l.strip() for l in open(root+'/go.mod.extra').read().split('\n') if l.strip() and not l.startswith('#')]
-out='module verif\n\ngo 1.26.8\n\nrequire (\n\tgithub.com/onosproject/onos-config v0.0.0\n'+''.join('\t%s\n'%l for l in sorted(set(lines+extra)))+')\n\nreplace github.com/onosproject/onos-config => /repo\n'+''.join(r+'\n' for r in repl)
+out='module verif\n\ngo 1.26.8\n\nrequire (\n\tgithub.com/onosproject/onos-config v0.0.0\n'+''.join('\t%s\n'%l for l in sorted(set(lines+extra)))+')\n\nreplace github.com/onosproject/onos-config => '+repo+'\n'+''.join(r+'\n' for r in repl)
 open(root+'/go.mod','w').write(out)
 PY
-cp /repo/go.sum "$ROOT/go.sum.repo" 2>/dev/null && cat "$ROOT/go.sum.repo" "$ROOT/go.sum.extra" 2>/dev/null | sort -u > "$ROOT/go.sum" || true
+cp "$VERIF_REPO/go.sum" "$ROOT/go.sum.repo" 2>/dev/null && cat "$ROOT/go.sum.repo" "$ROOT/go.sum.extra" 2>/dev/null | sort -u > "$ROOT/go.sum" || true
 rm -f "$ROOT/go.sum.repo"
 [ -f "$ROOT/.detrt/overlay.json" ] || python3 "$ROOT/detrt/gen.py"
 OVERLAY=(-overlay "$ROOT/.detrt/overlay.json")
